@@ -26,6 +26,14 @@ PROPS = {
         assumptions=LOG_ASSUME,
         trusted=["OS file system and mmap below the modelled append/rename semantics"],
     ),
+    "C08": dict(
+        lean_modules=["Liftbridge.Props.C08"],
+        gen_sources=["server/commitlog/compact_cleaner.go"],
+        go_pkg="./server/commitlog", test="TestVerifC08",
+        level="proof",
+        assumptions=LOG_ASSUME,
+        trusted=["OS file system below the modelled rename/delete semantics"],
+    ),
     "C09": dict(
         lean_modules=["Liftbridge.Props.C09"],
         gen_sources=["server/commitlog/delete_cleaner.go"],
